@@ -60,7 +60,7 @@ RunOutput run_krylov(const Plan& plan, const RunOpts&)
         ctx.begin_api(op.kind);
         if (op.kind == OP_INITV || op.kind == OP_INIT0)
         {
-            VecL v = gen_start_vector(spec, world->A, op.kind == OP_INIT0 ? V_GENERIC : op.vclass, op.vseed);
+            VecL v = gen_start_vector(spec, world->A, op.kind == OP_INIT0 ? V_GENERIC : op.vclass, op.kind == OP_INIT0 ? 0 : op.vseed);
             obs.expect_kind[CK_INIT] = 1;
             r = guarded([&]() -> long { K->init(v); return 0; });
             inited = !r.threw;
